@@ -267,8 +267,17 @@ func (e *Exec) branch(c *Term, why string) bool {
 		e.assume(tc.Not(c))
 		return false
 	case RSat:
+		// decide the other side now: re-executing the whole prefix only to find the sibling
+		// infeasible costs far more than one query
+		r2 := e.sol.Check(tc.Not(c))
+		e.sol.Pop()
+		if r2 == RUnsat {
+			e.record(Decision{N: 1, Forced: true, Kind: 'b'})
+			e.assume(c)
+			return true
+		}
 		e.record(Decision{N: 1, Kind: 'b'})
-		e.pushSibling(Decision{N: 0, Unchecked: true, Kind: 'b'})
+		e.pushSibling(Decision{N: 0, Unchecked: r2 != RSat, Kind: 'b'})
 		e.assume(c)
 		return true
 	default:
